@@ -111,6 +111,21 @@ pub fn local_fns(inner: Inner, no_std: bool) -> String {
 }
 "#
         .to_string(),
+        Inner::CowF32 => r#"pub mod fcow {
+    extern crate alloc;
+    use alloc::borrow::Cow;
+    use alloc::vec::Vec;
+    use super::CustomErr;
+    pub fn s_abs_all<'a>(v: Cow<'a, [f32]>) -> Cow<'a, [f32]> { if v.iter().all(|x| !x.is_sign_negative()) { v } else { Cow::Owned(v.iter().map(|x| if x.is_sign_negative() { -*x } else { *x }).collect::<Vec<f32>>()) } }
+    pub fn s_take3<'a>(v: Cow<'a, [f32]>) -> Cow<'a, [f32]> { match v { Cow::Borrowed(b) => Cow::Borrowed(&b[..if b.len() < 3 { b.len() } else { 3 }]), Cow::Owned(mut o) => { o.truncate(3); Cow::Owned(o) } } }
+    pub fn s_push0<'a>(v: Cow<'a, [f32]>) -> Cow<'a, [f32]> { let mut o = v.into_owned(); o.push(0.0); Cow::Owned(o) }
+    pub fn p_nonempty(v: &Cow<'_, [f32]>) -> bool { !v.is_empty() }
+    pub fn p_short(v: &Cow<'_, [f32]>) -> bool { v.len() <= 3 }
+    pub fn p_no_nan(v: &Cow<'_, [f32]>) -> bool { v.iter().all(|x| !x.is_nan()) }
+    pub fn v_sum(v: &Cow<'_, [f32]>) -> Result<(), CustomErr> { if v.len() > 100 { Err(CustomErr { code: 1 }) } else { Ok(()) } }
+}
+"#
+        .to_string(),
         Inner::Point => r#"pub mod fpoint {
     use super::*;
     pub fn s_abs(p: Point) -> Point { Point { x: p.x.saturating_abs(), y: p.y.saturating_abs() } }
@@ -156,6 +171,10 @@ pub fn unit_source(d: &Decl, no_std: bool, extra: &str) -> String {
     let mut o = String::new();
     o.push_str("#![allow(unused, non_snake_case, non_upper_case_globals, non_camel_case_types, clippy::all)]\n");
     o.push_str("use nutype::nutype;\nuse crate::prelude::*;\n");
+    if d.inner == Inner::CowF32 {
+        // the declaration itself names `Cow` (and `Vec` in some default expressions)
+        o.push_str("use alloc::borrow::Cow;\n");
+    }
     if no_std && d.inner == Inner::VecI32 {
         // only what a no_std user must import to *write* the declaration; no `format!`, `vec!`, `String`
         // in scope, so a generated use of those prelude items does not resolve by accident
@@ -177,7 +196,7 @@ pub fn unit_source(d: &Decl, no_std: bool, extra: &str) -> String {
             }
         }
     }
-    let decl = if no_std { d.decl_text().replace("vec![", "alloc::vec![") } else { d.decl_text() };
+    let decl = if no_std { d.decl_text().replace("vec![", "alloc::vec![").replace("Vec::new()", "alloc::vec::Vec::new()") } else { d.decl_text() };
     o.push_str(&decl);
     o.push('\n');
     o.push_str(extra);
@@ -837,7 +856,7 @@ pub fn c05_units(seed: u64, thorough: bool) -> Vec<Unit> {
     // seed-dependent: the same attack catalogue against proptest-generated declarations
     let rnd = catalogue::finalize(crate::random::random_decls(seed ^ 0xC05, if thorough { 160 } else { 14 }), "x");
     // (the attack templates name the type `T`: generic declarations are covered by the structural scan instead)
-    for (ri, d) in rnd.iter().filter(|d| d.generic == Generic::None).enumerate() {
+    for (ri, d) in rnd.iter().filter(|d| d.generic == Generic::None && d.inner != Inner::CowF32).enumerate() {
         let mut d = d.clone();
         d.type_name = "T".into();
         d.new_unchecked = false;
@@ -848,6 +867,7 @@ pub fn c05_units(seed: u64, thorough: bool) -> Vec<Unit> {
             Inner::F64 => ("f64", "f64", "7.5", false),
             Inner::VecI32 => ("Vec<i32>", "Vec<i32>", "vec![1, 2]", true),
             Inner::Point => ("Point", "Point", "Point { x: 1, y: 2 }", false),
+            Inner::CowF32 => unreachable!("filtered out above"),
         };
         let mk = if d.has_validation() { format!("T::try_new({value}).unwrap()") } else { format!("T::new({value})") };
         let decl = d.decl_text();
